@@ -257,7 +257,7 @@ func c06(c *core.Ctx, r *core.Report) {
 			})
 		}
 		r.Floor("writes to the cleanup stack / tearingDown", n, 5)
-		resetClears(c, r)
+		resetClearsOnly(c, r, "teardownStack=empty")
 		// teardown sets tearingDown before running cleanups
 		td := c.MustFn(tpkg, "T.teardown")
 		var set ssa.Instruction
@@ -316,27 +316,46 @@ func teardownFieldName(call ssa.CallInstruction) string {
 // handleWiring: constructors bind a handle's T and its teardown from one NewT* call; accessor chains read the
 // matching flags.
 func handleWiring(c *core.Ctx, r *core.Report) {
-	check := func(fn *ssa.Function, tField, tdField string) {
+	check := func(fn *ssa.Function) {
 		for _, ret := range an.Returns(fn) {
 			al, ok := an.Strip(ret.Results[0]).(*ssa.Alloc)
 			if !ok {
 				r.Undecided(core.FuncName(fn)+"#literal", an.Pos(c, ret), "constructor does not return a literal")
 				continue
 			}
-			lf := an.LiteralFields(al)
-			t, td := lf[tField], lf[tdField]
+			// roles by type: the *testing.T field and the func() field of the handle
+			var t, td ssa.Value
+			tName, tdName := "?", "?"
+			for name, v := range an.LiteralFields(al) {
+				if an.IsNamed(v.Type(), testingPkg, "T") {
+					t, tName = v, name
+				}
+				if sig, isSig := v.Type().Underlying().(*types.Signature); isSig && sig.Params().Len() == 0 && sig.Results().Len() == 0 {
+					td, tdName = v, name
+				}
+			}
 			if t == nil || td == nil {
-				r.Undecided(core.FuncName(fn)+"#fields", an.Pos(c, ret), "fields %s/%s not set in the literal", tField, tdField)
+				r.Undecided(core.FuncName(fn)+"#fields", an.Pos(c, ret), "the handle literal does not set both a *T and a func() field")
 				continue
 			}
 			e0, ok0 := an.Strip(t).(*ssa.Extract)
 			e1, ok1 := an.Strip(td).(*ssa.Extract)
 			okk := ok0 && ok1 && e0.Tuple == e1.Tuple && e0.Index == 0 && e1.Index == 1
-			r.Check(okk, core.FuncName(fn)+"#handle", an.Pos(c, ret), tField+" and "+tdField+" come from the same constructor call", "the handle's teardown ("+an.D().Of(td)+") does not belong to its T ("+an.D().Of(t)+"): cleanups registered on one handle are run (or not) by another")
+			r.Check(okk, core.FuncName(fn)+"#handle", an.Pos(c, ret), tName+" and "+tdName+" come from the same constructor call", "the handle's teardown ("+an.D().Of(td)+") does not belong to its T ("+an.D().Of(t)+"): cleanups registered on one handle are run (or not) by another")
 		}
 	}
-	check(c.MustFn("internal/workers", "NewActiveScenario"), "t", "Teardown")
-	check(c.MustFn("internal/workers", "ActiveScenario.newIterationState"), "t", "teardown")
+	check(c.MustFn("internal/workers", "NewActiveScenario"))
+	// the per-iteration state constructor: the function of internal/workers returning the iteration state type
+	nIS := 0
+	for _, fn := range c.AllFuncs {
+		if core.RelPkg(fn) == "internal/workers" && fn.Parent() == nil && fn.Signature.Results().Len() == 1 && an.IsNamed(fn.Signature.Results().At(0).Type(), workersPkg, "iterationState") {
+			nIS++
+			check(fn)
+		}
+	}
+	if nIS == 0 {
+		r.Undecided("iteration-state-constructor", "-", "no constructor of the iteration state found")
+	}
 	// NewTWithOptions returns (t, t.teardown)
 	nt := c.MustFn("pkg/f1/testing", "NewTWithOptions")
 	for _, ret := range an.Returns(nt) {
